@@ -39,7 +39,8 @@ impl StringFormatter<'_> {
                 _ => continue,
             };
 
-            let last_line = tok.get_content().lines().last().unwrap();
+            // A lone CR ends a line of the literal too
+            let last_line = lines_custom(tok.get_content()).last().unwrap();
             let base_indentation = &last_line[0..count_leading_whitespace(last_line)];
 
             if base_indentation.len() != last_line.trim_end_matches('\'').len() {
